@@ -18,6 +18,9 @@ def load_known():
         return json.load(f)["findings"]
 
 
+_ABSORB_CACHE = {}
+
+
 class Check:
     def __init__(self, pid, tier, seed, title=""):
         self.pid = pid
@@ -90,16 +93,26 @@ class Check:
         re-report the obligations of `rule_ids` (optionally filtered by pred(record)) under
         `new_rid` of this property.  Used where a clause decided under another property is also a
         necessary condition of this one."""
+        if getattr(self, "is_sub", False):
+            # rules are shared one level deep only: a module run on behalf of another property
+            # reports its native rules (this also rules out cycles between properties)
+            return 0
         import importlib
         mod = importlib.import_module("fsverif.rules." + module_name)
-        sub = Check(module_name, self.tier, self.seed)
-        sub.known = []
-        sub.info = self.info
-        broken = None
-        try:
-            mod.run(db, sub)
-        except AnalysisBroken as ex:
-            broken = ex
+        ck = (module_name, self.tier, id(db))
+        if ck in _ABSORB_CACHE:
+            sub, broken = _ABSORB_CACHE[ck]
+        else:
+            sub = Check(module_name, self.tier, self.seed)
+            sub.known = []
+            sub.info = self.info
+            sub.is_sub = True
+            broken = None
+            try:
+                mod.run(db, sub)
+            except AnalysisBroken as ex:
+                broken = ex
+            _ABSORB_CACHE[ck] = (sub, broken)
         self.rule(new_rid, text, min_instances=min_instances)
         n = 0
         for o in sub.obligations:
